@@ -28,8 +28,9 @@ MUTANTS = [
     ('c18-empty-lines-dropped', 'C18', L, "[self.fire(line(x)) for x in lines]", "[self.fire(line(x)) for x in lines if x]"),
     ('c18-lines-reversed', 'C18', L, "[self.fire(line(sock, x)) for x in lines]", "[self.fire(line(sock, x)) for x in reversed(lines)]"),
     # -- Message: one line ------------------------------------------------------------------------------
-    ('c18-lf-check-removed', 'C18', M, "        if any(type(arg)('\\n') in arg for arg in self.args if isinstance(arg, str)):\n            raise Error('No newline allowed')\n", ""),
-    ('c18-lf-check-skips-last-arg', 'C18', M, "if any(type(arg)('\\n') in arg for arg in self.args if", "if any(type(arg)('\\n') in arg for arg in self.args[:-1] if"),
+    ('c18-lf-check-removed', 'C18', M, "        if any('\\r' in arg or '\\n' in arg for arg in fields if isinstance(arg, str)):\n            raise Error('No newline allowed')\n", ""),
+    ('c18-revert-cr-check', 'C18', M, "        if any('\\r' in arg or '\\n' in arg for arg in fields if isinstance(arg, str)):", "        if any('\\n' in arg for arg in self.args if isinstance(arg, str)):"),
+    ('c18-lf-check-skips-last-arg', 'C18', M, "        fields = [*self.args, str(self.command)]", "        fields = [*self.args[:-1], str(self.command)]"),
     ('c18-str-does-not-recheck', 'C18', M, "    def __str__(self):\n        self._check_args()\n", "    def __str__(self):\n"),
     ('c18-lf-terminator-only', 'C18', M, "{prefix}{command} {args}\\r\\n", "{prefix}{command} {args}\\n"),
     ('c18-double-terminator', 'C18', M, "{prefix}{command} {args}\\r\\n", "{prefix}{command} {args}\\r\\n\\r\\n"),
